@@ -170,6 +170,13 @@ fn indices(len: usize) -> Vec<Idx> {
     out.push(Idx::U(u64::MAX));
     out.push(Idx::U(1 << 63));
     out.push(Idx::U(1 << 32));
+    // an index whose low 32 bits are a valid position
+    for j in 0..=(len as i64) {
+        out.push(Idx::I((1i64 << 32) + j));
+        out.push(Idx::I((1i64 << 33) + j));
+        out.push(Idx::I(-(1i64 << 32) + j));
+        out.push(Idx::U((1u64 << 32) + j as u64));
+    }
     for v in [V::Dbl(1.0), V::Dbl(0.0), V::s("a"), V::s("0"), V::Bool(true), V::Null, V::list(&[V::Int(0)]), V::Bytes(vec![0])] {
         out.push(Idx::Other(v));
     }
@@ -633,7 +640,62 @@ fn families(sp: &'static Space) -> Vec<Family<'static>> {
         Family::new("strings", sp.strs.len() as u64, move |i, a| sp.run_str(i, a)),
         Family::new("bytes", (sp.byts.len() * sp.byts.len()) as u64, move |i, a| sp.run_bytes(i, a)),
         Family::new("other-types", o * o, move |i, a| sp.run_other(i, a)),
+        Family::new("in-long-lists", 9 * 9 * 7 * 3, run_in_long),
     ]
+}
+
+// -- family: membership in longer lists of mixed element types --------------------------------
+
+/// a list of `len` fillers of one type with the needle at one place, probed by the needle: true at
+/// every position and length; probed by an absent value of the needle's type: false
+fn run_in_long(idx: u64, acc: &mut Acc) {
+    let pool = elems();
+    let n = pool.len() as u64;
+    let lens = [4usize, 11, 12, 13, 16, 33, 100];
+    let d = unrank(idx, &[n, n, lens.len() as u64, 3]);
+    let (needle, filler, len) = (&pool[d[0] as usize], &pool[d[1] as usize], lens[d[2] as usize]);
+    if d[0] == d[1] {
+        return;
+    }
+    let pos = [0, len / 2, len - 1][d[3] as usize];
+    let mut items = vec![filler.clone(); len];
+    items[pos] = needle.clone();
+    let l = V::List(items);
+    let absent = match needle {
+        V::Int(_) => V::Int(8),
+        V::UInt(_) => V::UInt(9),
+        V::Dbl(_) => V::Dbl(2.5),
+        V::Str(_) => V::s("zz"),
+        V::Bool(b) => V::Bool(!b),
+        V::Bytes(_) => V::Bytes(vec![1, 2]),
+        V::List(_) => V::list(&[V::Int(99)]),
+        V::Map(_) => V::map(&[("zz", V::Int(1))]),
+        _ => V::Int(8),
+    };
+    // cross-numeric equality is left open by the model: keep needle and filler apart
+    let numeric = |v: &V| refmodel::is_numeric(v) || matches!(v, V::Bool(_));
+    let open = numeric(needle) && numeric(filler);
+    for (x, want, what) in [(needle, true, "present"), (&absent, false, "absent")] {
+        if open && !want {
+            continue;
+        }
+        if matches!(x, V::Bool(_)) && !want && numeric(filler) {
+            continue;
+        }
+        for form in ["bound", "literal"] {
+            let (src, binds): (String, Vec<(String, V)>) = if form == "bound" {
+                ("x in l".to_string(), vec![("x".to_string(), x.clone()), ("l".to_string(), l.clone())])
+            } else {
+                match (x.lit(), l.lit()) {
+                    (Some(a), Some(b)) => (format!("{} in {}", a, b), vec![]),
+                    _ => continue,
+                }
+            };
+            let got = run_src(&src, &binds);
+            report(acc, &format!("in-long-list {} needle", what), &src, &binds, &Want::Val(V::Bool(want)), &got);
+        }
+    }
+    acc.nontrivial(&("in-long", idx));
 }
 
 pub fn replay_families(t: Tier) -> Vec<Family<'static>> {
@@ -645,7 +707,7 @@ pub fn run(t: Tier) -> i32 {
     let mut rep = Report::new(ID, t, "exploration");
     let sp: &'static Space = Box::leak(Box::new(Space::new(t)));
     rep.rule = format!(
-        "lists: all {} lists of length <= {} over 9 elements (one per type, incl. a nested list and map) x 3 forms (folded literal, literal of bound variables, bound list): value, size (function and method), and l[i] for every int in [-size-2, size+2], i64 extremes, every uint in [0, size+1], u64 extremes and 8 non-integer indices, literal and bound; in-list: every probe x every list of length <= 2; concat-lists: all ordered pairs of lists of length <= 2 in 4 forms; maps: all {} map literals with <= {} entries over keys {{a, b, '', size (also a built-in function name)}} with repetition (last entry wins) in n+4 forms (all constant, each single value variable, all values variable, variable keys, bound map): value, m[k], m.k, k in m for present/absent/non-string keys; strings: all strings of length <= {} over {{a, b, e-acute}} x all needles of length <= 2: substring in, +, size (UTF-8 bytes); bytes: all pairs over 10 byte strings; other-types: `in` and `+` over all ordered pairs of one value per type must fail outside their domains. Non-trivial = the property fixes the outcome; distinct by (family, index, source)",
+        "lists: all {} lists of length <= {} over 9 elements (one per type, incl. a nested list and map) x 3 forms (folded literal, literal of bound variables, bound list): value, size (function and method), and l[i] for every int in [-size-2, size+2], i64 extremes, every uint in [0, size+1], u64 extremes and 8 non-integer indices, literal and bound; in-list: every probe x every list of length <= 2; in-long-lists: lists of 4..100 fillers of one type holding a needle of another type at the first, middle or last place (all ordered pairs of 9 element types): the needle is a member, another value of its type is not, bound and literal; indices whose low 32 bits are a valid position (2^32 + j, 2^33 + j, -2^32 + j) must fail; concat-lists: all ordered pairs of lists of length <= 2 in 4 forms; maps: all {} map literals with <= {} entries over keys {{a, b, '', size (also a built-in function name)}} with repetition (last entry wins) in n+4 forms (all constant, each single value variable, all values variable, variable keys, bound map): value, m[k], m.k, k in m for present/absent/non-string keys; strings: all strings of length <= {} over {{a, b, e-acute}} x all needles of length <= 2: substring in, +, size (UTF-8 bytes); bytes: all pairs over 10 byte strings; other-types: `in` and `+` over all ordered pairs of one value per type must fail outside their domains. Non-trivial = the property fixes the outcome; distinct by (family, index, source)",
         sp.lists.len(),
         t.pick(3, 5),
         sp.maps.len(),
